@@ -6,6 +6,7 @@ import (
 	"math/rand"
 	"os"
 	"regexp"
+	"runtime"
 	"sort"
 	"strings"
 	"sync"
@@ -223,7 +224,81 @@ func c18(r *vlib.Run) int {
 	}
 	c18E2E(r)
 	c18Reconnect(r)
+	c18ManyLongLived(r)
 	return n / 2
+}
+
+// c18ManyLongLived: more servers than the client connects to at a time
+// (--cpc 1: one connection attempt per CPU at a time), each holding its session
+// open (a follow). Every listed server has to be contacted although the
+// sessions of the first ones never end.
+func c18ManyLongLived(r *vlib.Run) {
+	key, err := vlib.GenKey("ed25519")
+	if err != nil {
+		r.Inconclusive("keygen")
+		return
+	}
+	hk := vlib.HostKey()
+	hkFile := r.Dir("c18many") + "/hostkey.pem"
+	os.WriteFile(hkFile, hk.PEM, 0600)
+	for round := 0; round < r.N(1, 4); round++ {
+		k := runtime.NumCPU() + 5 + 3*round
+		var ports []int
+		seen := map[int]bool{}
+		for len(ports) < k {
+			p := vlib.FreePort()
+			if p != 0 && !seen[p] {
+				seen[p] = true
+				ports = append(ports, p)
+			}
+		}
+		f, err := startFakeSSHD(r, fmt.Sprintf("c18many-%d", round), ports, []string{hkFile}, "", -1)
+		if err != nil {
+			r.Inconclusive("fakesshd")
+			return
+		}
+		var list []string
+		for _, p := range ports {
+			list = append(list, fmt.Sprintf("127.0.0.1:%d", p))
+		}
+		home, keyFile := r.ClientHome(fmt.Sprintf("c18many-%d", round), key)
+		args := []string{"--cfg", "none", "--noColor", "--trustAllHosts", "--key", keyFile, "--user", "tester", "--cpc", "1",
+			"--logger", "stdout", "--logLevel", "error", "--files", "/var/log/x.log", "--shutdownAfter", "8",
+			"--servers", strings.Join(list, ",")}
+		res := vlib.RunCmd(vlib.Cmd{Path: r.Bin("dtail"), Args: args, Env: []string{"HOME=" + home}, Dir: home})
+		conns := map[int]int{}
+		shells := map[int]int{}
+		for _, e := range f.Events() {
+			if e.Ev == "conn" {
+				conns[e.Port]++
+			}
+			if e.Ev == "shell" {
+				shells[e.Port]++
+			}
+		}
+		f.Stop()
+		os.RemoveAll(home)
+		r.Eval(fmt.Sprintf("many|%d", k))
+		r.Count("long_lived_runs_with_more_servers_than_connection_attempts_at_a_time", 1)
+		if res.TimedOut {
+			r.Inconclusive("dtail-watchdog")
+			continue
+		}
+		never, twice := 0, 0
+		for _, p := range ports {
+			if shells[p] == 0 {
+				never++
+			}
+			if conns[p] > 1 {
+				twice++
+			}
+		}
+		r.Count("long_lived_servers_contacted", len(shells))
+		if never > 0 || twice > 0 {
+			r.Violation("long-lived-sessions-servers-not-contacted-once", map[string]interface{}{"servers": k, "cpus": runtime.NumCPU(), "never_contacted": never,
+				"contacted_more_than_once": twice, "stderr": vlib.Trunc(string(res.Stderr), 800), "stdout": vlib.Trunc(string(res.Stdout), 400)})
+		}
+	}
 }
 
 // c18Reconnect: a retrying client (dtail) whose connections are dropped by
